@@ -19,6 +19,7 @@ import JubakoModel.Lemmas.FuncsBytes
 import JubakoModel.Lemmas.FuncsContent
 import JubakoModel.Lemmas.FuncsCheck
 import JubakoModel.Lemmas.FuncsDir
+import JubakoModel.Lemmas.FuncsParse
 
 namespace Jubako
 
@@ -334,5 +335,17 @@ theorem c14_entry_store_tail_follows_source (l : LayoutOut) (n : Nat) (srcC : Li
     entryStoreTail l n = writesBytes (Generated.entryStoreTailWrites n
       (Generated.entryLayoutWrites l.entrySize (l.common ++ l.variants.flatten).length srcC srcV)) :=
   gen_entryStoreTail l n srcC srcV hc hv hlen hw hn
+
+/-- **The reader's decoding of a property header follows the source**: `RawProperty::parse`
+    (`reader/directory_pack/raw_layout.rs`, with `PropType::try_from` and `ByteSize::try_from`), translated on
+    every run into a sequential parser over a byte list, is `RawProp.decode` of the reader model on every byte
+    string — same property, same unread rest, same kind of failure. -/
+theorem c14_property_header_parser_follows_source (bs : Bytes) :
+    (Generated.rawPropertyParse bs).Same ((RawProp.decode bs).map' (fun x => (x.1.toSrcRaw, x.2))) :=
+  gen_rawPropertyParse bs
+
+/-- non-vacuity: a signed 3-byte property with a default -/
+example : Generated.rawPropertyParse [0b0011_1010, 0x03, 0x02, 0xF1, 1, 97, 9] =
+    .ok ((0, .signedInt 3 (some (-982525)), [97]), [9]) := by rfl
 
 end Jubako
